@@ -1,7 +1,48 @@
+/-
+  C07 — Iterators are finite and a step-through yields nothing after an error.
+  Property theorems only; helper lemmas live in `CF/Lemmas/`.
+-/
 import CF.Lemmas.Sections
-import CF.Model.Ops
 import CF.Lemmas.SectionsBound
+import CF.Lemmas.Step
+import CF.Lemmas.StepConv
+import CF.Model.Ops
+import CF.Spec.WF
 namespace CF
+
+/-! ### the step-through -/
+
+
+/-- A step-through yields at most one item per data record plus one, however long the caller keeps
+    going (every fuel), from every state of the iterator. -/
+theorem C07_step_bound (it : StepIt) (fuel : Nat) : (it.drain fuel).length ≤ it.data.length + 1 := by
+  exact StepIt.drain_length_le fuel it
+
+/-- Once a step-through has reported an error it yields nothing further: every later `next()`
+    returns `None` and leaves the iterator unchanged. -/
+theorem C07_step_fused (it it' : StepIt) (e : StErr) (h : it.next = (some (.error e), it')) :
+    it'.errored = true ∧ ∀ it'' : StepIt, it''.errored = true → it''.next = (none, it'') := by
+  refine ⟨?_, fun it'' h'' => StepIt.next_errored it'' h''⟩
+  rcases StepIt.next_cases it with ⟨it1, hn⟩ | ⟨e1, it1, hn, he, _⟩ | ⟨x, it1, hn, _, _⟩
+  · rw [hn] at h; simp at h
+  · rw [hn] at h
+    simp only [Prod.mk.injEq] at h
+    rw [← h.2]; exact he
+  · rw [hn] at h; simp at h
+
+/-- In a drain, an error can only be the last item. -/
+theorem C07_step_error_last (it : StepIt) (fuel : Nat) (pre post : List Item) (e : StErr)
+    (h : it.drain fuel = pre ++ .error e :: post) : post = [] := by
+  exact StepIt.drain_error_last fuel it pre post e h
+
+/-- A drain that is given enough fuel ends by itself (`next()` returned `None`), so collecting the
+    iterator terminates: more fuel does not produce more items. -/
+theorem C07_step_ends (it : StepIt) (fuel : Nat) (hf : it.data.length + 2 ≤ fuel) :
+    it.drain fuel = it.drain (it.data.length + 2) := by
+  exact StepIt.drain_stable fuel it (it.data.length + 2) hf (Nat.le_refl _)
+
+/-! ### the section iterator and `lines()` -/
+
 
 /-- The iterator's resting state is `between` after every call, whatever it returned (this is the
     invariant the repaired code restores; `SecIt.new` starts in it). -/
@@ -40,10 +81,5 @@ theorem C07_lines_bound (k : Nat) (rs : List RawRes) :
     (linesNext k rs).2.length + ((linesNext k rs).1.filter Option.isSome).length = rs.length := by
   have := linesNext_count k rs
   exact ⟨by omega, this⟩
-
-/-- no `next()` call of a section iterator at rest panics (C06, sections part) -/
-theorem C06_sections_no_panic (ls : List Raw) (it : SecIt) (hst : it.st = .between) (fuel : Nat) :
-    ∀ s, Out3.panic s ∉ SecIt.drain fuel it ls := by
-  exact drain_no_panic fuel ls it hst
 
 end CF
